@@ -14,6 +14,7 @@ import (
 	"deps.dev/util/resolve/dep"
 	"deps.dev/util/resolve/npm"
 	"deps.dev/util/resolve/version"
+	"deps.dev/util/semver/verifhook"
 	"github.com/anishathalye/porcupine"
 	"google.golang.org/grpc"
 	"google.golang.org/grpc/codes"
@@ -373,6 +374,16 @@ func (sv *simService) plan(t, kind, label, at, period int) {
 	sv.fkind[t], sv.flabel[t], sv.fat[t], sv.fperiod[t], sv.fcount[t], sv.fired[t] = kind, label, at, period, 0, false
 }
 
+// sched / setSched: goroutines the code under test started (and possibly left
+// behind for good, never joined) read the field in rpc; the main goroutine
+// writes it between phases.
+//
+//go:norace
+func (sv *simService) sched() *kernel.Sched { return sv.s }
+
+//go:norace
+func (sv *simService) setSched(s *kernel.Sched) { sv.s = s }
+
 func (sv *simService) taskFired(t int) bool { return sv.fired != nil && sv.fired[t] }
 
 var errRPCUnavailable = status.Error(codes.Unavailable, "injected fault: service unavailable")
@@ -442,8 +453,8 @@ func newSimService(t *kernel.Tape, s *svcSpec, mentioned []string) *simService {
 	return sv
 }
 
-func (sv *simService) rpc(label string) error {
-	s := sv.s
+func (sv *simService) rpc(ctx context.Context, label string) error {
+	s := sv.sched()
 	if s == nil {
 		return nil
 	}
@@ -453,6 +464,11 @@ func (sv *simService) rpc(label string) error {
 	s.Yield(kernel.KindIO, label, true)
 	if s.IsAborted() {
 		return status.Error(codes.Canceled, "simulation budget exceeded")
+	}
+	if verifhook.DeadlineFired(ctx) {
+		// a deadline the code under test set itself passed while the RPC was
+		// under way: gRPC answers with the status of the context's error
+		return status.FromContextError(ctx.Err()).Err()
 	}
 	if sv.fkind == nil {
 		return nil
@@ -495,7 +511,7 @@ func (sv *simService) rpc(label string) error {
 }
 
 func (sv *simService) GetPackage(ctx context.Context, in *pb.GetPackageRequest, _ ...grpc.CallOption) (*pb.Package, error) {
-	if err := sv.rpc("GetPackage"); err != nil {
+	if err := sv.rpc(ctx, "GetPackage"); err != nil {
 		return nil, err
 	}
 	b, ok := sv.pkgs[in.GetPackageKey().GetName()]
@@ -510,7 +526,7 @@ func (sv *simService) GetPackage(ctx context.Context, in *pb.GetPackageRequest, 
 }
 
 func (sv *simService) GetVersion(ctx context.Context, in *pb.GetVersionRequest, _ ...grpc.CallOption) (*pb.Version, error) {
-	if err := sv.rpc("GetVersion"); err != nil {
+	if err := sv.rpc(ctx, "GetVersion"); err != nil {
 		return nil, err
 	}
 	k := in.GetVersionKey()
@@ -526,7 +542,7 @@ func (sv *simService) GetVersion(ctx context.Context, in *pb.GetVersionRequest, 
 }
 
 func (sv *simService) GetRequirements(ctx context.Context, in *pb.GetRequirementsRequest, _ ...grpc.CallOption) (*pb.Requirements, error) {
-	if err := sv.rpc("GetRequirements"); err != nil {
+	if err := sv.rpc(ctx, "GetRequirements"); err != nil {
 		return nil, err
 	}
 	k := in.GetVersionKey()
@@ -566,6 +582,12 @@ type c18Recorder struct {
 	maxCall int
 }
 
+//go:norace
+func (r *c18Recorder) sched() *kernel.Sched { return r.s }
+
+//go:norace
+func (r *c18Recorder) setSched(s *kernel.Sched) { r.s = s }
+
 func digestVersions(vs []resolve.Version, sorted bool) string {
 	out := make([]string, len(vs))
 	for i, v := range vs {
@@ -587,24 +609,24 @@ func digestReqs(rs []resolve.RequirementVersion) string {
 }
 
 func (r *c18Recorder) begin(kind string, key resolve.VersionKey) (int, int, error) {
-	t := r.s.CurTask()
+	t := r.sched().CurTask()
 	r.ncalls[t]++
 	if r.ncalls[t] > r.maxCall {
-		if !r.s.IsAborted() {
-			r.s.SetNote(t, noteCap, int64(r.s.LiveTasks()))
+		if !r.sched().IsAborted() {
+			r.sched().SetNote(t, noteCap, int64(r.sched().LiveTasks()))
 		}
-		r.s.Abort()
+		r.sched().Abort()
 	}
-	if r.s.IsAborted() {
+	if r.sched().IsAborted() {
 		return t, -1, errBudget
 	}
-	r.perTask[t] = append(r.perTask[t], c18Call{task: t, kind: kind, key: key, call: r.base + r.s.Stamp()})
+	r.perTask[t] = append(r.perTask[t], c18Call{task: t, kind: kind, key: key, call: r.base + r.sched().Stamp()})
 	return t, len(r.perTask[t]) - 1, nil
 }
 
 func (r *c18Recorder) end(t, i int, err error, digest string) {
 	c := &r.perTask[t][i]
-	c.ret = r.base + r.s.Stamp()
+	c.ret = r.base + r.sched().Stamp()
 	c.faulted = r.svc.taskFired(t)
 	switch {
 	case err == nil:
@@ -662,6 +684,8 @@ func (r *c18Recorder) MatchingVersions(ctx context.Context, vk resolve.VersionKe
 type c18Op struct {
 	Kind  string // Resolve | Version | Versions | Requirements | MatchingVersions
 	Key   resolve.VersionKey
+	Gap   int64 // virtual time that passes before the operation starts (clock jump)
+	dl    bool  // the resolution says of itself that it ran into a deadline
 	sig   string
 	desc  string
 	pv    any
@@ -897,6 +921,20 @@ func RunC18(t *kernel.Tape, o Opts) *Result {
 	if concurrent {
 		cfg = drawSched(t, []string{"GetRequirements", "GetPackage", "GetVersion", "lock:", "op"})
 	}
+	// Time (see RunC05): RPCs of a third of the histories take virtual time
+	// too, and in a third of all runs the clock jumps between operations.
+	if !concurrent && t.Bool(1, 3) {
+		cfg.Latency = 1 + t.Choose(kernel.NumLat-1)
+	}
+	if t.Bool(1, 3) {
+		for _, ops := range programs {
+			for _, op := range ops {
+				if t.Bool(1, 2) {
+					op.Gap = [...]int64{1e3, 1e6, 60e6, 3600e6, 30 * 86400e6}[t.Choose(5)]
+				}
+			}
+		}
+	}
 
 	// Reference resolutions through the model universe (serial, fresh).
 	ctx := context.Background()
@@ -931,7 +969,7 @@ func RunC18(t *kernel.Tape, o Opts) *Result {
 	// Live objects: one APIClient and one npm resolver shared by all tasks.
 	ntasks := len(programs)
 	s := kernel.NewSched(t, cfg)
-	service.s = s
+	service.setSched(s)
 	api := resolve.NewAPIClient(service)
 	if faulty {
 		service.enableFaults()
@@ -945,6 +983,9 @@ func RunC18(t *kernel.Tape, o Opts) *Result {
 		i := i
 		fns[i] = func(*kernel.Task) {
 			for j, op := range programs[i] {
+				if op.Gap > 0 {
+					s.Sleep(op.Gap, "clock-jump")
+				}
 				s.Yield(kernel.KindOp, "op-start", false)
 				s.SetNote(i, noteOp, int64(j+1))
 				s.SetNote(i, noteFired, 0)
@@ -964,11 +1005,11 @@ func RunC18(t *kernel.Tape, o Opts) *Result {
 					service.cancels[i] = cancel
 					service.plan(i, op.Fault, op.FaultLabel, op.FaultAt, 2+op.FaultAt%3)
 				}
-				op.start = phase<<32 | rec.s.Stamp()
+				op.start = phase<<32 | rec.sched().Stamp()
 				defer func() {
 					op.fired = service.taskFired(i)
 					service.plan(i, faultNone, 0, 0, 1)
-					op.end = phase<<32 | rec.s.Stamp()
+					op.end = phase<<32 | rec.sched().Stamp()
 				}()
 				switch op.Kind {
 				case "Resolve":
@@ -1016,6 +1057,16 @@ func RunC18(t *kernel.Tape, o Opts) *Result {
 		}
 	}
 	okRun := s.Run(fns)
+	if !okRun && s.Deadlock && s.CallersDone(ntasks) {
+		// Every caller has returned; what is blocked for good are goroutines
+		// the code under test started and left behind. That is no violation
+		// of this property by itself, and the run is judged as usual.
+		s.JoinCallers(ntasks)
+		ids, _ := s.BlockedTasks()
+		probe(res, "goroutines_left_blocked_for_good", len(ids))
+		probe(res, "runs_judged_with_goroutines_left_behind", 1)
+		okRun = true
+	}
 	res.Yields = s.Yields
 	res.Switches = s.SwitchCount
 	res.SimTimeUs = s.Now()
@@ -1069,7 +1120,8 @@ func RunC18(t *kernel.Tape, o Opts) *Result {
 	if len(epilogue) > 0 {
 		es := kernel.NewSched(t, kernel.Config{Mode: kernel.ModeSerial})
 		rec.base = s.Stamp()
-		rec.s, service.s = es, es
+		rec.setSched(es)
+		service.setSched(es)
 		phase = 1
 		okE := es.Run([]func(*kernel.Task){func(*kernel.Task) {
 			for _, op := range epilogue {
@@ -1088,6 +1140,15 @@ func RunC18(t *kernel.Tape, o Opts) *Result {
 		programs = append(programs, epilogue)
 	}
 	res.RaceSteps = s.Races()
+	for _, ops := range programs[:ntasks] {
+		for _, op := range ops {
+			if op.Gap > 0 {
+				fault(res, "clock_jumps_between_operations", 1)
+			}
+		}
+	}
+	probe(res, "virtual_timers_of_code_under_test", s.Timers)
+	probe(res, "virtual_sleeps_of_code_under_test", s.Sleeps)
 	fault(res, "reordered_completions", s.Reorders)
 	fault(res, "rpc_preemptions", s.MidOpSwitch-s.LockPreempt)
 	fault(res, "lock_point_preemptions", s.LockPreempt)
@@ -1177,6 +1238,12 @@ func RunC18(t *kernel.Tape, o Opts) *Result {
 				root := c.key.Name + " " + c.key.Version
 				failedReg[root] = append(failedReg[root], porcupine.Operation{ClientId: c.task, Input: linIn{reg: true}, Call: int64(c.call), Output: linOut{}, Return: int64(c.ret)})
 			}
+			continue
+		}
+		if c.errText != "" && kernel.TimersStarted() > 0 && strings.Contains(c.errText, "eadline") {
+			// the code under test set itself a deadline, it passed, and the
+			// call says so: an honest failure, not judged
+			probe(res, "calls_ended_by_a_deadline_of_the_code_under_test", 1)
 			continue
 		}
 		if c.errText != "" {
@@ -1321,7 +1388,7 @@ func RunC18(t *kernel.Tape, o Opts) *Result {
 	// quiescent: one caller, under a serial scheduler of its own (the client
 	// may start goroutines)
 	qs := kernel.NewSched(t, kernel.Config{Mode: kernel.ModeSerial})
-	service.s = qs
+	service.setSched(qs)
 	service.plan(0, faultNone, 0, 0, 1)
 	fourCalls := func(*kernel.Task) {
 		for _, bvk := range bundled {
